@@ -76,7 +76,8 @@ def m_incomparable_delays(v: dict) -> bool:
 
 def m_async_substep_deadlock(v: dict) -> bool:
     """C05: exact deadlock in a scenario where an async_requests connection starts at a simulator that
-    performs sub-steps (it has an incoming weak connection) and shares a group with the agent, and the
+    can perform sub-steps (it lives inside a group in which a weak connection generates sub-time) and
+    shares a group with the agent, and the
     very same scenario under the same schedule policy completes once the async_requests flags are
     removed (the wait for async successors includes the sub-time and closes a wait cycle through a
     simulator outside the group)."""
